@@ -154,13 +154,8 @@ def plan(tier):
             ([Config(l, s, 'M') for l in langs for s in few], [('prng', 2)], 1, 8),
             ([Config(l, s, 'D') for l in langs for s in sw], [('prng', 1), 'first', 'alt'], 0, 1),
         ]
-    pol = ['first', 'last', 'alt'] + [('prng', c) for c in range(1, 9)]
-    return [
-        ([Config(l, s, 'S', o) for l in langs for s in sw for o in ('asc', 'desc')], pol, 1, 4),
-        ([Config(l, s, 'XS') for l in langs for s in sw], [('prng', 1), ('prng', 2)], 2, 8),
-        ([Config(l, s, 'D') for l in langs for s in sw], [('prng', 1), ('prng', 2)], 1, 16),
-        ([Config(l, s, 'D') for l in langs for s in sw], pol, 0, 1),
-    ]
+    from mc import plans
+    return plans.thorough(langs, 'light', plans.ALL16)
 
 
 RUN_KW = {'stages': ('gen',), 'keep_pickles': False}
